@@ -88,6 +88,7 @@ type vfAddProviderLog struct {
 	mu          sync.Mutex
 	sends       []vfSend
 	unreachable map[peer.ID]bool
+	failNext    map[peer.ID]int // the next n sends to that peer fail
 	self        peer.ID
 	badContent  bool
 }
@@ -107,6 +108,10 @@ func (l *vfAddProviderLog) SendMessage(ctx context.Context, p peer.ID, m *pb.Mes
 		l.badContent = true
 	}
 	ok := !l.unreachable[p]
+	if l.failNext[p] > 0 {
+		l.failNext[p]--
+		ok = false // a transient failure
+	}
 	l.sends = append(l.sends, vfSend{key: string(m.GetKey()), to: p, at: time.Now(), ok: ok})
 	if !ok {
 		return errors.New("peer unreachable")
@@ -192,7 +197,7 @@ func VfSweepScenario() {
 	for i, bits := range shape {
 		sw.peers = append(sw.peers, vfPeerWithBits(bits, i))
 	}
-	log := &vfAddProviderLog{self: self, unreachable: map[peer.ID]bool{}}
+	log := &vfAddProviderLog{self: self, unreachable: map[peer.ID]bool{}, failNext: map[peer.ID]int{}}
 	addr, aerr := ma.NewMultiaddr("/ip4/20.0.0.1/tcp/4001")
 	vfAssert(aerr == nil, "sweep/setup")
 	interval := time.Hour
@@ -372,6 +377,53 @@ func VfSweepScenario() {
 		vfWaitIdle()
 		check(k2, from, time.Now(), "sweep/work-queued-at-close-is-resumed-after-a-restart")
 		once = append(once, kSlow, k2)
+	case 8: // peers leave: regions under a scheduled prefix fall below r peers and merge
+		bits := vfBitsOf("leaving.bits", 2)
+		// the sibling region holds keys too (started now)
+		sib := bits[:1] + string('0'+'1'-bits[1])
+		var more []mh.Multihash
+		for i := 0; i < vfParam("LATER"); i++ {
+			more = append(more, vfKeyWithBits(sib, 110+i))
+		}
+		from := past()
+		vfAssert(prov.StartProviding(false, more...) == nil, "sweep/start-providing")
+		vfWaitIdle()
+		for _, k := range more {
+			check(k, from, time.Now(), "sweep/started-key-is-advertised-to-its-r-nearest-peers")
+		}
+		kept = append(kept, more...)
+		vfAdvance(time.Second)
+		sw.mu.Lock()
+		var stay []peer.ID
+		for _, p := range sw.peers {
+			if key.BitString(keyspace.PeerIDToBit256(p))[:2] != bits {
+				stay = append(stay, p)
+			}
+		}
+		if len(stay) >= r { // the swarm keeps at least r peers
+			sw.peers = stay
+		}
+		sw.mu.Unlock()
+	case 9: // every peer's next send fails once (a transient failure at the start of its sends)
+		for _, p := range sw.peers {
+			log.failNext[p] = 1
+		}
+		bits := vfBitsOf("later.bits", 2)
+		var more []mh.Multihash
+		for i := 0; i < vfParam("LATER")+2; i++ {
+			more = append(more, vfKeyWithBits(bits, 100+i))
+		}
+		from := past()
+		vfAssert(prov.StartProviding(false, more...) == nil, "sweep/start-providing")
+		vfAdvance(10 * time.Minute)
+		vfWaitIdle()
+		for p := range log.failNext {
+			log.failNext[p] = 0
+		}
+		for _, k := range more {
+			check(k, from, time.Now(), "sweep/a-transient-failure-costs-a-peer-at-most-the-failed-record")
+		}
+		kept = append(kept, more...)
 	}
 
 	C := vfParam("CYCLES")
@@ -426,7 +478,7 @@ func VfSweepNewFails() {
 	self, err := peer.Decode("12BoooooPEER")
 	vfAssert(err == nil, "sweep/setup")
 	sw := &vfSwarm{bucket: 3}
-	log := &vfAddProviderLog{self: self, unreachable: map[peer.ID]bool{}}
+	log := &vfAddProviderLog{self: self, unreachable: map[peer.ID]bool{}, failNext: map[peer.ID]int{}}
 	opts := []Option{WithPeerID(self), WithRouter(sw), WithMessageSender(log),
 		WithSelfAddrs(func() []ma.Multiaddr { return nil }),
 		WithAddLocalRecord(func(context.Context, mh.Multihash) error { return nil })}
